@@ -38,6 +38,12 @@ def e1_cases(tier):
     for c in ("AnyFrom", "AnyButFrom"):
         cs.append(engine.exc_case("%s(A0)" % c, S, one, name="%s(c)" % c))
         cs.append(engine.exc_case("%s(A0, 'b')" % c, S, one, name="%s(c, 'b')" % c))
+        # a symbolic member next to a parenthesis / a newline (the class text then crosses a line or unbalances the parentheses
+        # seen by the scans of the type inference)
+        cs.append(engine.exc_case("%s(A0, '(', 'x')" % c, S, one, name="%s(c, '(', 'x')" % c))
+        if tier == "thorough" or c == "AnyFrom":
+            cs.append(engine.exc_case("%s(chr(10), A0)" % c, S, one, name="%s(newline, c)" % c))
+            cs.append(engine.exc_case("%s(A0, ')', chr(92))" % c, S, one, name="%s(c, ')', backslash)" % c))
         cs.append(engine.exc_case("%s(A0)" % c, S, ["len(A0) != 1 and len(A0) <= 2"], required=T, name="%s(s) with |s| != 1 refused" % c))
         if tier == "thorough":
             cs.append(engine.exc_case("%s(A0, A1)" % c, two, both1, name="%s(c, d)" % c))
